@@ -60,12 +60,24 @@ def check_peoi_guard(ctx, rq):
             tt = iff.test
             if isinstance(tt, ast.BoolOp) and isinstance(tt.op, ast.And) and len(tt.values) == 2 and norm(tt.values[1]) == "not eof_ok":
                 tt = tt.values[0]
-            if isinstance(tt, ast.UnaryOp) and isinstance(tt.op, ast.Not) and isinstance(tt.operand, ast.Name):
+            if isinstance(tt, ast.UnaryOp) and isinstance(tt.op, ast.Not) and isinstance(tt.operand, ast.Name) and tt.operand.id != "eof_ok":
                 v = tt.operand.id
                 asg = [n for n in ast.walk(f) if isinstance(n, ast.Assign) and norm(n.targets[0]) == v]
                 ok = bool(asg) and all(norm(a.value) in ("self.getc()", "self.peekc()", "self._stream.read(1)") for a in asg)
             elif t in ("not self.peekc()", "not self.getc()"):
                 ok = True
+            elif t == "not eof_ok":
+                # raised after a read loop that only ends when the stream is exhausted (`while c := read(): ...`)
+                par = getattr(iff, "_parent", None)
+                sibs = getattr(par, "body", []) if par is not None else []
+                k = next((i for i, x in enumerate(sibs) if x is iff), None)
+                prev = [x for x in sibs[:k] if isinstance(x, ast.While)] if k is not None else []
+                if prev:
+                    w = prev[-1]
+                    reads = ("self.getc()", "self.peekc()", "self._stream.read(1)")
+                    exits_at_eof = isinstance(w.test, ast.NamedExpr) and norm(w.test.value) in reads and not any(isinstance(b, ast.Break) for b in ast.walk(w))
+                    ok = exits_at_eof
+                    why = "after a loop that ends only at the end of the stream"
             ctx.check(ok, "PEOI-GUARD", key, f"PrematureEndOfInput is raised under `{t}`, which is also true for characters that are not the end of input: complete but invalid text is reported as incomplete",
                       m.rel, r.lineno, witness="`# x` (hash, space, text): the REPL prompts for more input for ever", detail=why)
     ctx.need(n_raise >= 4, f"only {n_raise} PrematureEndOfInput raise sites found")
